@@ -42,8 +42,12 @@ Rejected36 == \E k \in Keys, p \in Packets : PutRejected(k, p)
 Noop36     == \E k \in Keys, p \in Packets : PutNoop(k, p)
 Update36   == \E k \in Keys, p \in Packets : PutUpdate(k, p)
 Query36    == \E k \in Keys : Query(k)
-Next36 == Rejected36 \/ Noop36 \/ Update36 \/ Query36
+\* the adversary's replayed-signature put: any thematic record set, payload bytes below / above the stored ones
+Replay36   == \E k \in Keys : \E pl \in {0, 2}, S \in Th(k, Other(k)) : PutReplaySig(k, pl, S)
+Next36 == Rejected36 \/ Noop36 \/ Update36 \/ Replay36 \/ Query36
 Spec36 == Init /\ [][Next36]_vars
-Gen36 == Init /\ [][Rejected36 \/ Noop36 \/ Update36]_vars
+Gen36 == Init /\ [][Rejected36 \/ Noop36 \/ Update36 \/ Replay36]_vars
+\* honest publishes followed by replayed-signature puts (exhaustive, MaxSteps = 2)
+GenReplay36 == Init /\ [][Update36 \/ Replay36]_vars
 GenTable36 == Init /\ [][Rejected36 \/ Update36]_vars   \* single puts on the empty server
 =============================================================================
